@@ -132,16 +132,69 @@ class PCTStrategy(Strategy):
         return {"kind": "pct", "depth": self.depth}
 
 
+class ReleaseYieldStrategy(Strategy):
+    """Atomicity-violation hunter: whenever a thread releases a lock it is, with probability q,
+    *parked* - every other thread is preferred until all of them block (or `horizon` steps pass).
+    This drives another thread through the same critical section inside the window between the
+    release and whatever the releasing thread does next (a check-then-act moved out of the lock)."""
+
+    def __init__(self, rng, q=0.3, horizon=600, p=0.03):
+        self.rng = rng
+        self.q = q
+        self.horizon = horizon
+        self.p = p
+        self.parked = {}
+
+    def _free(self, s, cands):
+        for tid in [t for t, lim in self.parked.items() if s.steps > lim]:
+            del self.parked[tid]
+        return [t for t in cands if t.id not in self.parked]
+
+    def at_point(self, s, kind, info):
+        cur = s.current
+        if kind == "call" and self.parked and self.rng.random() < 0.5:
+            # inside a user function: let parked threads overlap with it
+            self.parked.clear()
+            others = s.runnable_others()
+            if others:
+                return others[self.rng.randrange(len(others))]
+        if kind == "release" and self.rng.random() < self.q:
+            self.parked[cur.id] = s.steps + self.horizon
+        others = self._free(s, s.runnable_others())
+        if cur.id in self.parked:
+            if others:
+                return others[self.rng.randrange(len(others))]
+            return None
+        if others and self.rng.random() < self.p:
+            return others[self.rng.randrange(len(others))]
+        return None
+
+    def at_block(self, s, cands):
+        free = self._free(s, cands)
+        if not free:
+            self.parked.clear()
+            free = cands
+        return free[self.rng.randrange(len(free))]
+
+    def describe(self):
+        return {"kind": "relyield", "q": self.q}
+
+
 class PreemptStrategy(Strategy):
     """Non-preemptive baseline plus forced switches: {step: thread id} (bounded preemption)."""
 
-    def __init__(self, preempts=None, blocks=None):
+    def __init__(self, preempts=None, blocks=None, yield_in_call=False):
         self.preempts = dict(preempts or {})
         self.blocks = dict(blocks or {})
+        self.yield_in_call = yield_in_call  # a user call takes long: everybody else runs meanwhile
 
     def at_point(self, s, kind, info):
         tid = self.preempts.get(s.steps)
         if tid is None:
+            if self.yield_in_call and kind == "call":
+                c = s.runnable_others()
+                if c:
+                    return c[0]
             return None
         for t in s.runnable_others():
             if t.id == tid:
@@ -157,7 +210,7 @@ class PreemptStrategy(Strategy):
         return cands[0]
 
     def describe(self):
-        return {"kind": "preempt", "preempts": sorted(self.preempts.items())}
+        return {"kind": "preempt", "preempts": sorted(self.preempts.items()), "yic": self.yield_in_call}
 
 
 class WithFaults(Strategy):
